@@ -47,11 +47,73 @@ fn compile(text: &str, derives: &str, ctx: &str) -> Outcome {
     }
 }
 
+/// `genmt <jobs> <threads>`: every job is compiled by every thread, all threads running at the same time (barrier start,
+/// each thread walks the job list from a different starting point, three rounds).  One line per (job, thread, round):
+/// `MT <id> <thread> <round> <class> <hash of the generated code or message>`.
+fn main_threads(jobs: &str, nthreads: usize) {
+    use std::collections::hash_map::DefaultHasher;
+    use std::hash::{Hash, Hasher};
+    use std::sync::{Arc, Barrier};
+    std::panic::set_hook(Box::new(|_| {}));
+    let list: Arc<Vec<(String, String, String, String)>> = Arc::new(
+        jobs.lines()
+            .filter(|l| !l.is_empty())
+            .map(|l| {
+                let f: Vec<&str> = l.split('\t').collect();
+                (
+                    f[0].to_string(),
+                    std::fs::read_to_string(f[1]).expect("grammar file"),
+                    f.get(3).copied().unwrap_or("-").to_string(),
+                    f.get(4).copied().unwrap_or("-").to_string(),
+                )
+            })
+            .collect(),
+    );
+    let barrier = Arc::new(Barrier::new(nthreads));
+    let mut hs = Vec::new();
+    for t in 0..nthreads {
+        let list = list.clone();
+        let barrier = barrier.clone();
+        hs.push(
+            std::thread::Builder::new()
+                .stack_size(256 << 20)
+                .spawn(move || {
+                    let mut out = String::new();
+                    barrier.wait();
+                    for round in 0..3 {
+                        for k in 0..list.len() {
+                            let (id, text, der, ctx) = &list[(k + t * 7 + round) % list.len()];
+                            let r = catch_unwind(AssertUnwindSafe(|| compile(text, der, ctx)));
+                            let (class, payload) = match r {
+                                Ok(Outcome::Ok(code)) => ("ok", code),
+                                Ok(Outcome::ParseErr(pos, spec)) => ("parse_err", format!("{} {}", pos, spec)),
+                                Ok(Outcome::GenErr(msg)) => ("gen_err", msg),
+                                Err(_) => ("panic", String::new()),
+                            };
+                            let mut h = DefaultHasher::new();
+                            payload.hash(&mut h);
+                            out.push_str(&format!("MT {} {} {} {} {:016x} {}\n", id, t, round, class, h.finish(), hex(&payload.chars().take(160).collect::<String>())));
+                        }
+                    }
+                    out
+                })
+                .unwrap(),
+        );
+    }
+    for h in hs {
+        print!("{}", h.join().expect("compile thread died"));
+    }
+    println!("DONE");
+}
+
 fn main() {
     let args: Vec<String> = std::env::args().collect();
     let mode = args[1].as_str();
     let jobs = std::fs::read_to_string(&args[2]).expect("job file");
     let skip: usize = args.get(3).map(|s| s.parse().unwrap()).unwrap_or(0);
+    if mode == "genmt" {
+        return main_threads(&jobs, skip.max(1));
+    }
     std::panic::set_hook(Box::new(|info| {
         let loc = info
             .location()
